@@ -43,6 +43,7 @@ CONSTANTS
     EmitDyn,      \* Finish is offered in a concentration state (one case per system and state)
     MaxHist,      \* history generator: number of Query / Reorder operations on the built system
     MaxReorders,  \* history generator: number of Reorder operations among them
+    NewKs,        \* history generator: rate constants a reaction's parameter may be reassigned to
     NameOrder,    \* the substance names of the pools in the order a name-sorting constructor form puts them
     BuildCfgs,    \* constructor configurations [name, checked]: whether the balance check is among the checks run
     IntegrCfgs,   \* integration configurations [name, solver, tol, c0form, tform, explicit] a case is to be run under
@@ -212,6 +213,11 @@ FormOKAt(ss, e, u, const, y0) ==
     /\ InRowSpace(ss, u)
     /\ Norm(const) = QSumOver(Len(u), LAMBDA j : QMul(u[j], Q(y0[j])))
 
+(* A system knows its substances by the KEYS of the mapping it was given (name in this       *)
+(* module); the Substance objects' own names are labels without meaning for balance.  A case  *)
+(* offers keys that differ from every label: the same system must result under them.          *)
+AliasOf(i) == "s" \o ToString(i) \o "x"
+
 (* a constructor form that sorts the substances by name puts them in the order of NameOrder  *)
 NameRank(n) == CHOOSE i \in 1..Len(NameOrder) : NameOrder[i] = n
 Sortable(ss) == \A i \in 1..Len(ss) : \E j \in 1..Len(NameOrder) : NameOrder[j] = ss[i].name
@@ -279,7 +285,7 @@ PermRxn(r, p) == [reac |-> PermVec(r.reac, p), prod |-> PermVec(r.prod, p),
                   ireac |-> PermVec(r.ireac, p), iprod |-> PermVec(r.iprod, p), k |-> r.k]
 Query(kind) ==
     /\ stage \in {"built", "dyn"} /\ kind \in {"B", "odesys"}
-    /\ hist' = Append(hist, [op |-> "query", kind |-> kind, p |-> <<>>])
+    /\ hist' = Append(hist, [op |-> "query", kind |-> kind, p |-> <<>>, k |-> QZero])
     /\ UNCHANGED <<subs, rxns, built, c, c0, nsteps, last, stage>>
 Reorder(p) ==
     /\ stage \in {"built", "dyn"} /\ IsPerm(p, NS)
@@ -287,10 +293,22 @@ Reorder(p) ==
     /\ rxns' = [j \in 1..Len(rxns) |-> PermRxn(rxns[j], p)]
     /\ c' = IF c = <<>> THEN c ELSE PermVec(c, p)
     /\ c0' = IF c0 = <<>> THEN c0 ELSE PermVec(c0, p)
-    /\ hist' = Append(hist, [op |-> "reorder", kind |-> "", p |-> p])
+    /\ hist' = Append(hist, [op |-> "reorder", kind |-> "", p |-> p, k |-> QZero])
     /\ UNCHANGED <<built, nsteps, last, stage>>
 
-(* the system as it was constructed, i.e. before the reorderings of the history *)
+(* The rate constant of reaction j of the SAME system object is reassigned; whatever is asked *)
+(* of the object afterwards (rates, ODE system, integration, safe step) follows the new       *)
+(* constant.  The history keeps the constant that was replaced.                               *)
+SetParam(j, k) ==
+    /\ stage \in {"built", "dyn"} /\ j \in 1..Len(rxns) /\ k[2] > 0 /\ k[1] > 0 /\ Norm(k) # Norm(rxns[j].k)
+    /\ rxns' = [rxns EXCEPT ![j].k = k]
+    /\ hist' = Append(hist, [op |-> "setparam", kind |-> "", p |-> <<j>>, k |-> rxns[j].k])
+    /\ UNCHANGED <<subs, built, c, c0, nsteps, last, stage>>
+
+(* the system as it was constructed, i.e. before the reorderings / reassignments of the history *)
+HasSetParam == \E i \in 1..Len(hist) : hist[i].op = "setparam"
+FirstK(j) == LET is == { i \in 1..Len(hist) : hist[i].op = "setparam" /\ hist[i].p = <<j>> }
+             IN  IF is = {} THEN rxns[j].k ELSE hist[CHOOSE i \in is : \A l \in is : i <= l].k
 InvPerm(p) == [i \in 1..Len(p) |-> CHOOSE m \in 1..Len(p) : p[m] = i]
 RECURSIVE UndoFrom(_, _)
 UndoFrom(v, i) == IF i = 0 THEN v
@@ -298,7 +316,7 @@ UndoFrom(v, i) == IF i = 0 THEN v
 Undo(v) == UndoFrom(v, Len(hist))
 Subs0 == Undo(subs)
 Rxns0 == [j \in 1..Len(rxns) |-> [reac |-> Undo(rxns[j].reac), prod |-> Undo(rxns[j].prod),
-                                    ireac |-> Undo(rxns[j].ireac), iprod |-> Undo(rxns[j].iprod), k |-> rxns[j].k]]
+                                    ireac |-> Undo(rxns[j].ireac), iprod |-> Undo(rxns[j].iprod), k |-> FirstK(j)]]
 
 ------------------------------------------------------------------------------
 (* generators (model checking / case generation) *)
@@ -366,7 +384,10 @@ GenQuery == /\ stage = "built" /\ Len(hist) < MaxHist /\ LastOp # "query"
 GenReorder == /\ stage = "built" /\ Len(hist) + 1 < MaxHist /\ NReorders < MaxReorders /\ LastOp # "reorder"
               /\ \E p \in Perms(NS) : Reorder(p)
 
-Next == \/ GenQuery \/ GenReorder
+GenSetParam == /\ stage = "dyn" /\ nsteps = 0 /\ last = "set" /\ hist = <<>>
+               /\ \E j \in 1..Len(rxns), k \in NewKs : SetParam(j, k)
+
+Next == \/ GenQuery \/ GenReorder \/ GenSetParam
         \/ GenSubstance \/ GenReaction \/ GenReverse \/ GenEdge \/ Build
         \/ GenSetState \/ GenEulerStep \/ GenSafeStep \/ GenFinish
 
@@ -570,11 +591,18 @@ RedRec ==
     IN  [ subs |-> ss, rxns |-> rs, keys |-> KeySeq(ss), B |-> BMatrix(ss), sortperm |-> SortPerm(ss), poly |-> RhsPoly(rs, Len(ss)),
           G |-> IF FirstOrder(rs) THEN GenMatrix(rs, Len(ss)) ELSE <<>>,
           dyn |-> DynRec(ss, rs, cc),
+          prev |-> IF ~HasSetParam \/ cc = <<>> THEN [has |-> FALSE]
+                   ELSE LET rs0 == RedRxns(Rxns0, us)
+                        IN  [ has |-> TRUE, rxns |-> rs0, poly |-> RhsPoly(rs0, Len(ss)),
+                              G |-> IF FirstOrder(rs0) THEN GenMatrix(rs0, Len(ss)) ELSE <<>>,
+                              dyn |-> DynRec(ss, rs0, cc),
+                              changed |-> [i \in 1..Len(hist) |-> [j |-> hist[i].p[1], k |-> rs[hist[i].p[1]].k]] ],
           units |-> IF cc = <<>> THEN <<>> ELSE [i \in 1..Len(UnitCfgs) |-> UnitRec(ss, rs, cc, UnitCfgs[i])] ]
 CaseRec ==
     [ in  |-> [ subs |-> Subs0, rxns |-> Rxns0, lines |-> SysLines(Subs0, Rxns0), hist |-> hist,
                 c0 |-> IF c0 = <<>> THEN <<>> ELSE [i \in 1..NS |-> c0[i][1]],
-                tout |-> Times, tol |-> Tol, cfgs |-> BuildCfgs, sortperm |-> SortPerm(Subs0) ],
+                tout |-> Times, tol |-> Tol, cfgs |-> BuildCfgs, sortperm |-> SortPerm(Subs0),
+                aliases |-> [i \in 1..NS |-> AliasOf(i)] ],
       cls |-> Class,
       exp |-> IF built = "rejected"
               THEN [ accept |-> FALSE, keys |-> KeySeq(subs), viol |-> [i \in 1..Len(rxns) |-> ViolSeq(rxns[i])],
